@@ -1,0 +1,76 @@
+//go:build verif
+
+package cache
+
+import (
+	"sort"
+	"sync/atomic"
+
+	"github.com/oasisprotocol/curve25519-voi/curve"
+)
+
+// Verification hooks for the LRU cache (build tag "verif" only; see lru_noverif.go for the
+// no-op versions). They let an external harness observe every critical section of the cache
+// at its linearization point (under the cache mutex, after the state change) and gate
+// goroutines before they take the lock.
+
+// VerifEvent is the projected abstract state of a cache after one critical section.
+type VerifEvent struct {
+	Seq      int64       // global sequence number, assigned under the cache mutex
+	Cache    uintptr     // identity of the cache instance
+	Op       string      // "get" or "put"
+	Key      [32]byte    // argument
+	Capacity int         //
+	Order    [][32]byte  // recency list front to back: the key each stored value was expanded from
+	Index    [][3][]byte // the map, sorted by key: {map key, key of the stored value, position in Order as one byte or 0xff}
+}
+
+var (
+	verifSeq    int64
+	verifTracer atomic.Value // func(*VerifEvent)
+	verifGateFn atomic.Value // func(op string, key [32]byte)
+)
+
+// VerifSetTracer installs (or with nil removes) the event sink.
+func VerifSetTracer(f func(*VerifEvent)) { verifTracer.Store(&f) }
+
+// VerifSetGate installs (or with nil removes) a function called before the mutex is taken.
+func VerifSetGate(f func(op string, key [32]byte)) { verifGateFn.Store(&f) }
+
+func verifGate(op string, publicKey *curve.CompressedEdwardsY) {
+	if p, _ := verifGateFn.Load().(*func(string, [32]byte)); p != nil && *p != nil {
+		(*p)(op, *publicKey)
+	}
+}
+
+// verifEvent must be called with the cache mutex held.
+func verifEvent(cache *lruCache, op string, publicKey *curve.CompressedEdwardsY) {
+	p, _ := verifTracer.Load().(*func(*VerifEvent))
+	if p == nil || *p == nil {
+		return
+	}
+	ev := &VerifEvent{Seq: atomic.AddInt64(&verifSeq, 1), Cache: uintptr(unsafePointer(cache)), Op: op, Key: *publicKey, Capacity: cache.capacity}
+	pos := make(map[*lruEntry]int)
+	i := 0
+	for el := cache.list.Front(); el != nil; el = el.Next() {
+		ent := el.Value.(*lruEntry)
+		ev.Order = append(ev.Order, ent.publicKey.CompressedY())
+		pos[ent] = i
+		i++
+	}
+	keys := make([]curve.CompressedEdwardsY, 0, len(cache.store))
+	for k := range cache.store {
+		keys = append(keys, k)
+	}
+	sort.Slice(keys, func(a, b int) bool { return string(keys[a][:]) < string(keys[b][:]) })
+	for _, k := range keys {
+		ent := cache.store[k]
+		vk := ent.publicKey.CompressedY()
+		pb := byte(0xff)
+		if q, ok := pos[ent]; ok && q < 255 && ent.element != nil && ent.element.Value == ent {
+			pb = byte(q)
+		}
+		ev.Index = append(ev.Index, [3][]byte{append([]byte(nil), k[:]...), append([]byte(nil), vk[:]...), {pb}})
+	}
+	(*p)(ev)
+}
